@@ -45,13 +45,14 @@ type step struct {
 }
 
 type scenario struct {
-	Family   string   `json:"family"`
-	IWS0     uint32   `json:"iws0"`
-	Msgs     [][]int  `json:"msgs"`   // per app stream: message sizes
-	BigHdr   []int    `json:"bighdr"` // per stream: extra metadata bytes (forces CONTINUATION when large)
-	Steps    []step   `json:"steps"`
-	RRGrants []uint32 `json:"rr_grants,omitempty"`
-	Unary    []bool   `json:"unary,omitempty"` // per stream: single message sent with END_STREAM on its last frame (non-client-streaming call shape)
+	Family       string   `json:"family"`
+	IWS0         uint32   `json:"iws0"`
+	Msgs         [][]int  `json:"msgs"`   // per app stream: message sizes
+	BigHdr       []int    `json:"bighdr"` // per stream: extra metadata bytes (forces CONTINUATION when large)
+	Steps        []step   `json:"steps"`
+	RRGrants     []uint32 `json:"rr_grants,omitempty"`
+	DeadlineRace []int    `json:"deadline_race_ms,omitempty"` // server direction, per stream: >0 = the request carries grpc-timeout of that many ms and the handler makes its first write at exactly that virtual instant
+	Unary        []bool   `json:"unary,omitempty"`            // per stream: single message sent with END_STREAM on its last frame (non-client-streaming call shape)
 }
 
 func pattern(s, i, n int) []byte {
@@ -99,6 +100,11 @@ func genScenario(rng *rand.Rand, fam string) scenario {
 			ms = ms[:1]
 		}
 		sc.Unary = append(sc.Unary, un)
+		dr := 0
+		if rng.Intn(3) == 0 {
+			dr = 1 + rng.Intn(5)
+		}
+		sc.DeadlineRace = append(sc.DeadlineRace, dr)
 		sc.Msgs = append(sc.Msgs, ms)
 		bh := 0
 		if rng.Intn(5) == 0 {
